@@ -57,7 +57,7 @@ impl Stats {
         self.decisions += s.decisions;
         self.atomic_ops += s.atomic_ops;
         self.calls += rec.calls.len() as u64;
-        self.deliveries += facts.n_deliveries as u64;
+        self.deliveries = self.deliveries.saturating_add(facts.n_deliveries as u64);
         self.max_preemptions = self.max_preemptions.max(s.preemptions);
         let bucket = match s.steps {
             0..=9 => "0-9",
@@ -134,6 +134,7 @@ impl Stats {
             s.blocked_while_frozen,
         );
         bump(&mut self.probes, "frozen_thread_released", s.unfreezes);
+        bump(&mut self.probes, "position_counter_wrapped", s.counter_wraps);
         bump(&mut self.probes, "chunk_shorter_than_requested", facts.short_chunks as u64);
         bump(&mut self.probes, "pulls_after_first_end", facts.pulls_after_end as u64);
         bump(&mut self.probes, "pulls_after_skip_returned", facts.pulls_after_skip as u64);
@@ -198,7 +199,7 @@ impl Stats {
         self.decisions += o.decisions;
         self.atomic_ops += o.atomic_ops;
         self.calls += o.calls;
-        self.deliveries += o.deliveries;
+        self.deliveries = self.deliveries.saturating_add(o.deliveries);
         self.max_preemptions = self.max_preemptions.max(o.max_preemptions);
         self.lin_checked += o.lin_checked;
         self.lin_states += o.lin_states;
